@@ -2,6 +2,7 @@ package keeper
 
 import (
 	"fmt"
+	stdmath "math"
 
 	errorsmod "cosmossdk.io/errors"
 	"cosmossdk.io/math"
@@ -149,14 +150,19 @@ func (k Keeper) AdjustPool(
 	k.SetRewardRules(ctx, pool.Id, pool.Rules)
 
 	// expiredHeight = [(srcEndHeight-beginPoint)*srcRewardPerBlock +appendReward]/RewardPerBlock + beginPoint
-	rewardsPerBlock := types.RewardRules(pool.Rules).RewardsPerBlock()
-	availableHeight := availableReward[0].Amount.Quo(rewardsPerBlock.AmountOf(availableReward[0].Denom)).Int64()
-	for _, c := range availableReward[1:] {
-		rpb := rewardsPerBlock.AmountOf(c.Denom)
-		inteval := c.Amount.Quo(rpb).Int64()
-		if availableHeight > inteval {
-			availableHeight = inteval
+	// every reward of the pool limits the new end height, also one that has nothing left to distribute
+	availableHeight := int64(stdmath.MaxInt64)
+	for _, r := range pool.Rules {
+		inteval := availableReward.AmountOf(r.Reward).Quo(r.RewardPerBlock)
+		if !inteval.IsInt64() {
+			return errorsmod.Wrapf(sdkerrors.ErrInvalidHeight, "endheight overflow")
 		}
+		if availableHeight > inteval.Int64() {
+			availableHeight = inteval.Int64()
+		}
+	}
+	if int64(stdmath.MaxInt64)-startHeight < availableHeight {
+		return errorsmod.Wrapf(sdkerrors.ErrInvalidHeight, "endheight overflow")
 	}
 	expiredHeight := startHeight + availableHeight
 	// if the expiration height does not change,
